@@ -34,8 +34,14 @@ func HarnessDecode() {
 // overwritten at a symbolic position, or truncated at a symbolic point: no panic.
 func HarnessDecodeMutated() {
 	l := raft.Log{Index: vrt.U64("index"), Term: 3, Type: raft.LogCommand}
-	l.Data = vrt.Bytes("data", 3)
-	l.Extensions = vrt.Bytes("ext", 2)
+	switch vrt.Param("iw", 0) { // width class of the index varint (0: any)
+	case 1:
+		vrt.Assume(l.Index < 128)
+	case 10:
+		vrt.Assume(l.Index >= 1<<63)
+	}
+	l.Data = vrt.Bytes("data", vrt.Param("dlen", 3))
+	l.Extensions = vrt.Bytes("ext", vrt.Param("elen", 2))
 	l.AppendedAt = time.Unix(1700000000, 5)
 	var buf bytes.Buffer
 	var c wal.BinaryCodec
